@@ -175,3 +175,18 @@ func VerifUFramesDialRejects(spec *QUICSpec) (rejected bool, msg string) {
 		return false, "dial went on to create a connection"
 	}
 }
+
+// VerifUFramesFlightBudgets: the budgets planInitialFlight will hand to BuildFlight and to
+// validateInitialFlight (MaxFrameBytes per datagram), computed by the real flightBudgets.
+func (r *VerifRetx) VerifUFramesFlightBudgets() []int {
+	sealer, err := r.keys.GetInitialSealer()
+	if err != nil {
+		return nil
+	}
+	bs := r.p.flightBudgets(len(r.hello), sealer, r.max, r.v)
+	out := make([]int, len(bs))
+	for i, b := range bs {
+		out[i] = b.MaxFrameBytes
+	}
+	return out
+}
